@@ -47,6 +47,7 @@ class LifeWorld(object):
         self.op_index = -1
         self.n = 0
         self._before = None
+        self.invalid_settings = False
 
     def fail(self, clause, msg):
         if self.viol is None:
@@ -82,7 +83,10 @@ class LifeWorld(object):
         res = self.life.on_event(ev)
         self.log.append(["ev", ev, exc, self.plugin.isActivePrintJob, self.region_ids()])
         if exc is not None:
-            self.fail("event_raise", "delivering %s raised %s" % (ev, exc))
+            if ev == Events.SETTINGS_UPDATED and self.invalid_settings:
+                self.stats["probe:settings_update_raised_on_invalid_entry"] += 1
+            else:
+                self.fail("event_raise", "delivering %s raised %s" % (ev, exc))
         if bool(self.plugin.isActivePrintJob) != self.life.active:
             self.fail("active", "after %s (previous state active=%s) the plugin reports active=%s, the lifecycle "
                       "model says %s" % (ev, was_active, self.plugin.isActivePrintJob, self.life.active))
@@ -122,6 +126,9 @@ class LifeWorld(object):
         elif k == "settings":
             for key, v in op["set"].items():
                 seams.SETTINGS.set(["plugins", "excluderegion", key], v, force=True)
+            if op.get("invalid"):
+                self.invalid_settings = True
+                self.stats["fault:settings_invalid_entry"] += 1
             self.bus.fire(Events.SETTINGS_UPDATED)
             self.stats["fault:settings_flip"] += 1
         elif k == "api":
@@ -255,7 +262,13 @@ def gen_life(rng):
                         "name": rng.choice(["afterPrintDone", "afterPrintDone", "beforePrintStarted",
                                             "afterPrintCancelled", "afterPrintPaused"])})
         elif r < 0.94:
-            ops.append({"op": "settings", "set": {"clearRegionsAfterPrintFinishes": rng.random() < 0.5}})
+            st = {"clearRegionsAfterPrintFinishes": rng.random() < 0.5}
+            if rng.random() < 0.15:
+                st["atCommandActions"] = [{"command": "ExcludeRegion", "parameterPattern": "(unclosed",
+                                           "action": "disable_exclusion", "description": "bad"}]
+                ops.append({"op": "settings", "set": st, "invalid": True})
+            else:
+                ops.append({"op": "settings", "set": st})
         else:
             region()
     ops.append({"op": "deliver", "n": 50})
